@@ -4,6 +4,7 @@ import (
 	"encoding/json"
 	"fmt"
 	"os"
+	"path/filepath"
 	"strconv"
 	"strings"
 	"testing"
@@ -67,6 +68,9 @@ func TestOne(t *testing.T) {
 			fmt.Printf("%4d %s %x\n", ctx.IP(), op, par)
 		}
 	}
+	for _, m := range di.Methods {
+		fmt.Printf("debug method %-12s range %d..%d params %d\n", m.ID, m.Range.Start, m.Range.End, len(m.Parameters))
+	}
 	r := runVM(nf.Script, off, ioff, args, "int")
 	fmt.Printf("VM: fault=%q depth=%d val=%s type=%s\n", r.fault, r.depth, r.val, r.typ)
 }
@@ -86,5 +90,48 @@ func TestSrc(t *testing.T) {
 	}
 	for i := range env.Case.Progs {
 		fmt.Printf("// ===== program %d\n%s\n", i, env.Case.Progs[i].Source(pkgName(i)))
+	}
+}
+
+// TestFindingsGo (development aid, C14_VERIFY_FINDINGS=1) runs every reproduction of known.go with the standard Go
+// toolchain and with neo-go and prints both outcomes next to the recorded expectation.
+func TestFindingsGo(t *testing.T) {
+	if os.Getenv("C14_VERIFY_FINDINGS") == "" {
+		t.Skip("C14_VERIFY_FINDINGS not set")
+	}
+	dir, err := os.MkdirTemp("", "c14find")
+	if err != nil {
+		t.Fatal(err)
+	}
+	defer os.RemoveAll(dir)
+	_ = os.WriteFile(filepath.Join(dir, "go.mod"), []byte("module c14mod\n\ngo 1.25.0\n"), 0o644)
+	for i, f := range findings {
+		if f.Fn == "" {
+			f.Fn, f.Res = "Main", "int"
+		}
+		pd := filepath.Join(dir, pkgName(i))
+		_ = os.MkdirAll(pd, 0o755)
+		src := strings.Replace(f.Src, "package foo", "package "+pkgName(i), 1)
+		_ = os.WriteFile(filepath.Join(pd, "prog.go"), []byte(src), 0o644)
+		pr := &Prog{Funcs: []Func{{Name: f.Fn, Results: []Field{{Type: f.Res}}}}, Calls: []Call{{F: 0, Args: f.Args}}}
+		_ = os.WriteFile(filepath.Join(pd, "harness.go"), []byte(harnessSource(pr, pkgName(i))), 0o644)
+	}
+	_ = os.WriteFile(filepath.Join(dir, "main.go"), []byte(mainSource(len(findings))), 0o644)
+	res, err := runGo(dir, len(findings))
+	if err != nil {
+		t.Fatal(err)
+	}
+	for i, f := range findings {
+		goGot := strings.TrimPrefix(res.lines[i][0], "OK ")
+		mark := ""
+		if goGot != f.GoWant {
+			mark = "   <<<<< recorded expectation is WRONG"
+		}
+		vm := runFinding(f)
+		div := "DIVERGES"
+		if vm == goGot {
+			div = "agrees"
+		}
+		fmt.Printf("%-28s Go=%-8s recorded=%-8s neo-go=%-40s %s%s\n", f.Key, goGot, f.GoWant, vm, div, mark)
 	}
 }
